@@ -145,6 +145,30 @@ def proof_part(prop):
     return res
 
 
+def retag_line(line):
+    """mpmc: give every injected value (CreateSend f v = `0 f v`, TrySend v = `7 v`) a tag that is
+    unique in the whole history (the exploration reuses a tag once its value left the system;
+    the theorems and monitors assume globally unique tags; behaviour does not depend on tags)"""
+    parts = line.rstrip("\n").split(";")
+    n = 0
+    for i in range(3, len(parts)):
+        t = parts[i].split(" ")
+        if t[0] == "0" and len(t) == 3:
+            n += 1; t[2] = str(n); parts[i] = " ".join(t)
+        elif t[0] == "7" and len(t) == 2:
+            n += 1; t[1] = str(n); parts[i] = " ".join(t)
+    return ";".join(parts)
+
+
+def retag_file(path):
+    tmp = path + ".retag"
+    with open(path) as f, open(tmp, "w") as g:
+        for l in f:
+            if l.strip():
+                g.write(retag_line(l) + "\n")
+    os.replace(tmp, path)
+
+
 # --------------------------------------------------------------------------- correspondence
 def build_tools():
     r = sh(os.path.join(ROOT, "tools", "build_modelrun.sh"))
@@ -190,6 +214,8 @@ def one_run(run, tier, seed, bin_hash):
             cnt, ln = t["random"]
             rcfg = run.get("random_cfg", cfg)
             subprocess.run([MODELRUN, "random", prim, rcfg, str(seed), str(cnt), str(ln)], stdout=hf, stderr=subprocess.PIPE, text=True)
+    if prim == "mpmc":
+        retag_file(hist)
     nhist = sum(1 for _ in open(hist))
     result = dict(name=name, prim=prim, cfg=cfg, histories=nhist, corpus=ncorpus, explore=stats, flavours={}, mismatches=[], dir=cdir)
     for fl in run["flavours"]:
@@ -264,6 +290,8 @@ def correspondence(prop, tier, seed):
             if summ.get("error"):
                 problems.append(f"{r['name']}/{fl}: compare failed: {summ['error']}")
         for m in r["mismatches"]:
+            if m.get("flavour") in spec.get("exclude_flavours", []):
+                continue
             if m["key"] in keys or m["key"] in ("crash", "shape"):
                 m = dict(m); m["run"] = r["name"]; mism.append(m)
     return dict(runs=results, problems=problems, mismatches=mism, evaluations=evaluations,
